@@ -76,6 +76,15 @@ func (l *LiquidOnChain) CreateOpeningTransaction(swapParams *swap.OpeningParams)
 	if err != nil {
 		return "", "", "", 0, 0, err
 	}
+	// The wallet decides where it puts change and fee outputs, so look up the
+	// index of the swap output in the funded transaction. The transaction is
+	// already broadcast at this point, therefore a lookup failure must not fail
+	// the swap.
+	if v, voutErr := l.VoutFromTxHex(txHex, redeemScript); voutErr == nil {
+		vout = v
+	} else {
+		log.Infof("could not find swap output in opening tx %s: %v", txId, voutErr)
+	}
 	return txHex, blindedScriptAddr, txId, fee, vout, nil
 }
 
